@@ -162,9 +162,14 @@ class C15Executor(Executor):
 
     def store_attr(self, st, base, attr, v, node):
         from pyvc.values import VMod
-        if isinstance(base, VMod) or (isinstance(base, VExt) and base.sort == "PyModule"):
-            # `module.name = value`: the same act as setattr(module, "name", value) -- recorded for the frame clauses
-            st.ghost["foreign_stores"] = tuple(st.ghost.get("foreign_stores", ())) + (f"{self.loc(node)} {getattr(base, 'name', 'module')}.{attr} = ...",)
+        from pyvc.values import VType
+        if isinstance(base, VMod) or (isinstance(base, VExt) and base.sort == "PyModule") or (isinstance(base, VFunc) and base.how == "ext") \
+                or (isinstance(base, VType) and "." in str(base.name) and not str(base.name).startswith("sharepoint2text.")):
+            # `module.name = value` / `module.Class.name = value`: the same act as setattr(module, "name", value) -- recorded
+            # (place, target, value) for the frame clauses
+            tgt = f"{(base.a if isinstance(base, VFunc) else getattr(base, 'name', None)) or 'module'}.{attr}"
+            st.ghost["foreign_stores"] = tuple(st.ghost.get("foreign_stores", ())) + (f"{self.loc(node)} {tgt} = ...",)
+            st.ghost["foreign_store_values"] = tuple(st.ghost.get("foreign_store_values", ())) + ((tgt, v),)
             return [st]
         return super().store_attr(st, base, attr, v, node)
 
@@ -176,6 +181,11 @@ class C15Executor(Executor):
     def get_index(self, st, base, idx, node):
         if isinstance(base, VExt) and base.sort == "C15Shared":
             return [(st, VUnk("shared_item"))]
+        if isinstance(base, VFunc) and base.how == "ext" and isinstance(base.a, str) and not base.a.startswith("C15."):
+            if isinstance(idx, VInt) and idx.const() is not None and base.a.endswith("crypt_provider"):
+                # ASSUMED (listed): pypdf's `crypt_provider` is a tuple of strings (provider name, version): some string
+                return [(st, VStr(z3.String(fresh_name("provider_tag"))))]
+            return [(st, VUnk(f"{base.a}[..]"))]        # an item of an object of another library: unknown
         if isinstance(base, VTuple) and len(base.items) == 256 and isinstance(idx, VInt) and idx.const() is None and getattr(idx, "is_bv", False) \
                 and idx.t.size() == 8 and _byte_table(base):
             # read of a constant 256-entry byte table at a symbolic byte: SOME byte (over-approximation; the frame / freshness
@@ -307,6 +317,9 @@ def contracts(reg):
     pc_ = provider_contract(reg, prov, shapes)
     if pc_ is not None:
         out.append(pc_)
+    pp_ = permanent_patch_contract(reg, roles.get("permanent-aes-patch"))
+    if pp_ is not None:
+        out.append(pp_)
 
     def restored(c):
         a = c.st.ghost.get("modattrs", {})
@@ -516,6 +529,118 @@ def provider_contract(reg, prov, shapes):
         note="verified on the real body (round 7); the patcher's call site keeps the model `C15.patcher`, which this contract implies",
     )
     ROLE_OF[me.target] = "<char-map-patch-targets>"
+    return me
+
+
+def permanent_patch_contract(reg, key):
+    """Round 7.  The one permanent patch (pypdf's fallback AES provider) by symbolic execution of its real body; H2 was a dataflow
+    reading only.  The attribute stores on pypdf modules / classes are recorded in order as ghost state:
+      * a call that returns False, and a call that raises, has installed NOTHING (no partial installation);
+      * every installed value is closed: a module-level function of the package, a function defined in this call that captures no
+        per-call state, or an object of the patched library itself (re-export) -- so what a call installs does not depend on when it
+        runs or on what ran before;
+      * all installing paths install the same targets in the same order: with closed values, a second call rebinds the same names
+        to equivalent values (idempotent), which is what makes the permanent change a constant of the process."""
+    try:
+        if key is None:
+            return None
+        mod = loader.module(key[0])
+        fn = mod.functions.get(key[1])
+        if fn is None or fn.args.args or fn.args.posonlyargs or fn.args.vararg or fn.args.kwarg or fn.args.kwonlyargs:
+            return None
+        import builtins
+        mod_names = set(mod.functions) | set(mod.classes) | set(mod.assigns) | set(mod.imports) | set(dir(builtins))
+        import_aliases = {(x.asname or x.name.split(".")[0]) for n in ast.walk(fn) if isinstance(n, (ast.Import, ast.ImportFrom)) for x in n.names}
+        nested = {n.name for n in ast.walk(fn) if isinstance(n, ast.FunctionDef) and n is not fn}
+        locals_ = _bound_names(fn) - nested - import_aliases
+    except Exception:  # noqa
+        return None
+    seen = {}
+
+    def body(c):
+        return not c.at_call_site and c.ex.contract is me
+
+    def captured(fd):
+        bound = _bound_names(fd)
+        return sorted({x.id for x in ast.walk(fd) if isinstance(x, ast.Name) and isinstance(x.ctx, ast.Load) and x.id not in bound
+                       and x.id not in import_aliases and x.id not in nested and (x.id not in mod_names or x.id in locals_)})
+
+    def stores(c):
+        return tuple(c.st.ghost.get("foreign_store_values", ()))
+
+    def other_writes(c):
+        return tuple(f"setattr(.., {k[1]!r}, ..)" for k in c.st.ghost.get("modattrs", {})) + tuple(c.st.ghost.get("published_mutated", ())) + \
+            tuple(x for x in c.st.ghost.get("foreign_stores", ()) if "setattr(" in x)
+
+    def nothing_unless_true(c):
+        if not body(c):
+            return z3.BoolVal(True)
+        r = c.result
+        rc = r.const() if isinstance(r, VBool) else None
+        if rc is None:
+            c.note = f"returns {r!r}: not a definite True / False"
+            return z3.BoolVal(False)
+        if rc is False and (stores(c) or other_writes(c)):
+            c.note = "returns False after installing " + ", ".join(t for (t, _v) in stores(c)) + " ".join(other_writes(c))
+            return z3.BoolVal(False)
+        if rc is True and not stores(c):
+            c.note = "returns True without installing anything"
+            return z3.BoolVal(False)
+        return z3.BoolVal(True)
+
+    def closed_values(c):
+        if not body(c):
+            return z3.BoolVal(True)
+        bad = list(other_writes(c))
+        for (t, v) in stores(c):
+            if isinstance(v, VFunc) and v.how == "repo":
+                continue
+            if isinstance(v, VFunc) and v.how == "ext" and isinstance(v.a, str) and v.a.split(".")[0] == t.split(".")[0]:
+                continue        # an object of the patched library itself
+            if type(v).__name__ == "VType" and str(v.name).split(".")[0] == t.split(".")[0] and "." in str(v.name):
+                continue        # a class of the patched library itself (re-export)
+            if isinstance(v, VFunc) and v.how == "closure" and isinstance(v.a, ast.FunctionDef) and v.a.name in nested:
+                cap = captured(v.a)
+                if not cap:
+                    continue
+                bad.append(f"{t} <- {v.a.name} capturing per-call state {cap}")
+                continue
+            bad.append(f"{t} <- {v!r}")
+        if bad:
+            c.note = "; ".join(bad[:4])
+        else:
+            c.note = f"{len(stores(c))} installation(s), all closed values"
+        return z3.BoolVal(not bad)
+
+    def same_targets(c):
+        if not body(c):
+            return z3.BoolVal(True)
+        ts = tuple(t for (t, _v) in stores(c))
+        if not ts:
+            return z3.BoolVal(True)
+        first = seen.setdefault("targets", ts)
+        if first != ts:
+            c.note = f"one path installs {list(first)[:6]}, another {list(ts)[:6]}"
+        return z3.BoolVal(first == ts)
+
+    def nothing_installed(c):
+        if not body(c):
+            return z3.BoolVal(True)
+        w = tuple(t for (t, _v) in stores(c)) + other_writes(c)
+        if w:
+            c.note = "raises after installing " + ", ".join(w[:6])
+        return z3.BoolVal(not w)
+
+    me = FnContract(
+        target=f"{key[0]}::{key[1]}", params=[],
+        ensures=[("installs-nothing-unless-it-returns-True", nothing_unless_true),
+                 ("every-installed-value-is-closed-(no-per-call-state)", closed_values),
+                 ("all-installing-paths-install-the-same-targets-(idempotent)", same_targets)],
+        raises=[Raises("Exception", sub=True, when=nothing_installed,
+                       label="whatever reading pypdf's provider tag / layout raises (ImportError, AttributeError, ...): nothing was installed before")],
+        note="verified on the real body (round 7): attribute stores on pypdf modules / classes as a ghost installation list",
+    )
+    ROLE_OF[me.target] = "<permanent-aes-patch>"
     return me
 
 
@@ -1399,6 +1524,7 @@ TRUSTED = ["the with-body of _patched_build_char_map leaves the patched attribut
            "library (non-package) callables do not mutate the arguments they are given (ownership analysis); copies (dict(x), list(x), x.copy(), slices) "
            "are tracked one level deep"]
 ASSUMED_MODELS = ["getattr/setattr on pypdf modules (ghost attribute map)", "generator resumption: normal, throw(exc), close()",
+                  "pypdf._crypt_providers.crypt_provider is a tuple of strings (its items compare with a str without raising)",
                   "_ROUND_KEY_CACHE as an abstract mapping whose values are published heap objects; _expand_key returns a fresh list or raises ValueError (C20 proves it)"]
 ASSUMPTIONS = ["SCHEDULES: only the sufficient conditions H9a / H9b / H10 / H12 on the module state the library owns are decided; interleavings inside third-party "
                "code and schedules with more context switches than the replayer explores (1 for caches, 2 for the patch section) are NOT",
